@@ -17,7 +17,7 @@ EXPLANATION = (
     "`true` for equal inputs (same polarity; delta checker: |a-b| < threshold in both argument orders); RandomChance "
     "returns gen_bool(self.p) of the state's generator; And/Or over 0..3 operands with every outcome vector: each "
     "operand's evaluate is called exactly once and the result is all()/any(); Not negates. The loop counter is "
-    "decided in C03.R3. NOT decided: the probability of RandomChance, exact pass counts for arbitrary lenses.")
+    "decided in C03.R3. (INIT) init() evaluated with every field of self a distinct symbol inserts exactly the state types of a reviewed table, under the component's own instantiation, each built from exactly the documented field or empty / zero. NOT decided: the probability of RandomChance, exact pass counts for arbitrary lenses.")
 ASSUMPTIONS = ["lenses return the value they are named for (lens wiring is checked where a property names it)"]
 
 CC = "mahf::conditions::common::"
@@ -242,6 +242,7 @@ def r6_logical(ctx):
 
 
 def run(ctx):
+    ctx.guard("C10.INIT", "init installs the configured state", lambda: __import__("initspec").check_for(ctx, "C10"))
     ctx.guard("C10.K17", "constructor fidelity", lambda: __import__("ctor").check_for(ctx, "C10", 22))
     ctx.guard("C10.R1", "LessThanN", lambda: r1_less_than_n(ctx))
     ctx.guard("C10.R2", "EveryN", lambda: r2_every_n(ctx))
